@@ -109,6 +109,16 @@ fn candidates(p: &Plan) -> Vec<Plan> {
         q.fs_yield_pm = 0;
         out.push(q);
     }
+    if p.sched_yield_pm > 0 {
+        let mut q = p.clone();
+        q.sched_yield_pm = 0;
+        out.push(q);
+    }
+    if !p.preexisting.is_empty() {
+        let mut q = p.clone();
+        q.preexisting.clear();
+        out.push(q);
+    }
     // per peer simplifications
     for (i, peer) in p.peers.iter().enumerate() {
         if !peer.script.is_empty() {
